@@ -101,4 +101,12 @@ theorem gc_loop_shape_matches_source :
 theorem postProcess_loop_shape_matches_source :
     Gen.Src.c10PostProcessLoopTree = fun pes eligible => if Gen.Src.c10Eligible pes eligible then 0 else 0 := rfl
 
+/-- `RunHook`: the loop over `outcome.AgreedPerformables` has no test and no exit — every agreed performable is
+visited and treated alike —, the function has no early return, and what the loop collects for `Remove` is
+`append(toRemove, result.WorkID)`: the work id of the element visited (the extractor finds exactly this
+right-hand side or fails).  That is `runHook`: `remove s (agreed.map (·.workID))`. -/
+theorem runHook_shape_matches_source (s : Store) (agreed : List CheckResult) :
+    Gen.Src.c10HookLoopTree = 0 ∧ Gen.Src.c10HookTree = 0 ∧ (∀ x, Gen.Src.c10HookCollects x = x) ∧
+    runHook s agreed = remove s (agreed.map (·.workID)) := ⟨rfl, rfl, fun _ => rfl, rfl⟩
+
 end AutoVerif.C10
